@@ -300,6 +300,485 @@ Proof.
 Qed.
 
 (* ------------------------------------------------------------------------------------------ *)
+(* Part 3: totality outside the Overrun class (C08)                                           *)
+
+(* 3a. Agreement: as long as the instrumented run neither reports an overrun nor panics, the real
+   machine (either build profile) does exactly the same. *)
+Definition agree {A} (ri rm : xres A) : Prop :=
+  match ri with
+  | XOverrun | XPanic => True
+  | _ => rm = ri
+  end.
+
+Lemma agree_refl {A} (r : xres A) : agree r r.
+Proof. destruct r; cbn; auto. Qed.
+
+Lemma agree_ck {A} md e (r : xres A) : is_instr md = false -> agree (ck MInstr e r) (ck md e r).
+Proof.
+  intros Hmd. destruct r as [a s| | | |]; cbn [ck agree]; auto.
+  rewrite Hmd. cbn [is_instr andb]. destruct (e <? s); cbn [agree]; auto.
+Qed.
+
+Lemma agree_xbind {A B} (ri rm : xres A) (ki km : A -> N -> xres B) :
+  agree ri rm -> (forall a s, agree (ki a s) (km a s)) -> agree (xbind ri ki) (xbind rm km).
+Proof.
+  intros H Hk. destruct ri as [a s| | | |]; cbn [agree] in H; try subst rm; cbn [xbind agree]; auto.
+Qed.
+
+Lemma agree_xmap {A B} (f : A -> B) (ri rm : xres A) : agree ri rm -> agree (xmap f ri) (xmap f rm).
+Proof. intros H. unfold xmap. apply agree_xbind; [assumption|]. intros a s. apply agree_refl. Qed.
+
+Lemma usize_add_agree md a b x : is_instr md = false ->
+  usize_add MInstr a b = Some x -> usize_add md a b = Some x.
+Proof.
+  unfold usize_add. destruct (a + b <? two64); [auto|discriminate].
+Qed.
+
+Lemma usize_sub_agree md a b x : is_instr md = false ->
+  usize_sub MInstr a b = Some x -> usize_sub md a b = Some x.
+Proof.
+  unfold usize_sub. destruct (b <=? a); [auto|discriminate].
+Qed.
+
+Lemma read_len_agree {A} md (ri rm : N -> N -> xres A) s e l :
+  is_instr md = false -> (forall s' e', agree (ri s' e') (rm s' e')) ->
+  agree (read_len MInstr ri s e l) (read_len md rm s e l).
+Proof.
+  intros Hmd Hr. unfold read_len. rewrite Hmd. cbn [is_instr andb].
+  destruct (e <? s + l); [exact I|].
+  destruct (usize_add MInstr s l) as [e'|] eqn:Ea; [|exact I].
+  rewrite (usize_add_agree md _ _ _ Hmd Ea).
+  specialize (Hr s e'). destruct (ri s e') as [v s1| | | |]; cbn [agree] in Hr |- *; try rewrite Hr; auto.
+Qed.
+
+Lemma read_len_varint_agree {A} md bs (ri rm : N -> N -> xres A) s e :
+  is_instr md = false -> (forall s' e', agree (ri s' e') (rm s' e')) ->
+  agree (read_len_varint MInstr bs ri s e) (read_len_varint md bs rm s e).
+Proof.
+  intros Hmd Hr. unfold read_len_varint. apply agree_xbind; [apply agree_ck; assumption|].
+  intros l s1. apply read_len_agree; assumption.
+Qed.
+
+Lemma read_bytes_agree md bs s e : is_instr md = false ->
+  agree (read_bytes MInstr bs s e) (read_bytes md bs s e).
+Proof.
+  intros Hmd. unfold read_bytes. apply read_len_varint_agree; [assumption|].
+  intros s' e'. apply agree_refl.
+Qed.
+
+Lemma read_unknown_agree md bs t s e : is_instr md = false ->
+  agree (read_unknown MInstr bs t s e) (read_unknown md bs t s e).
+Proof.
+  intros Hmd. unfold read_unknown.
+  destruct (t mod 8 =? 0); [apply agree_xmap, agree_ck; assumption|].
+  destruct ((t mod 8 =? 1) || (t mod 8 =? 5) || (t mod 8 =? 2)); [|reflexivity].
+  apply agree_xbind.
+  - destruct (t mod 8 =? 1); [apply agree_refl|]. destruct (t mod 8 =? 5); [apply agree_refl|].
+    apply agree_ck; assumption.
+  - intros offset s1.
+    destruct (usize_sub MInstr e s1) as [d|] eqn:Es; [|exact I].
+    rewrite (usize_sub_agree md _ _ _ Hmd Es).
+    destruct (d <? offset); [reflexivity|].
+    destruct (usize_add MInstr s1 offset) as [s2|] eqn:Ea; [|exact I].
+    rewrite (usize_add_agree md _ _ _ Hmd Ea). reflexivity.
+Qed.
+
+Lemma skip_unknown_agree {M} md bs t (msg : M) s e : is_instr md = false ->
+  agree (skip_unknown MInstr bs t msg s e) (skip_unknown md bs t msg s e).
+Proof. intros Hmd. unfold skip_unknown. apply agree_xmap, read_unknown_agree. assumption. Qed.
+
+Lemma fr_loop_agree {M} md bs (fi fm : N -> M -> N -> N -> xres M) :
+  is_instr md = false -> (forall t msg s e, agree (fi t msg s e) (fm t msg s e)) ->
+  forall fuel msg s e, agree (fr_loop MInstr bs fi fuel msg s e) (fr_loop md bs fm fuel msg s e).
+Proof.
+  intros Hmd Hf. induction fuel as [|fuel IH]; intros msg s e; cbn [fr_loop]; [reflexivity|].
+  destruct (s =? e); [reflexivity|].
+  pose proof (agree_ck md e (read_varint32 bs s) Hmd) as Hck.
+  destruct (ck MInstr e (read_varint32 bs s)) as [t s1| | | |]; cbn [agree] in Hck; try rewrite Hck;
+    try exact I; try reflexivity.
+  specialize (Hf t msg s1 e).
+  destruct (fi t msg s1 e) as [msg' s2| | | |]; cbn [agree] in Hf; try rewrite Hf;
+    try exact I; try reflexivity.
+  apply IH.
+Qed.
+
+Ltac agree_field Hmd :=
+  repeat match goal with |- agree (if ?c then _ else _) (if ?c then _ else _) => destruct c end;
+  first [ apply skip_unknown_agree; exact Hmd
+        | apply agree_xmap;
+          first [ apply agree_ck; exact Hmd | apply read_bytes_agree; exact Hmd ] ].
+
+Lemma entry_field_agree md bs t msg s e : is_instr md = false ->
+  agree (entry_field MInstr bs t msg s e) (entry_field md bs t msg s e).
+Proof. intros Hmd. unfold entry_field. agree_field Hmd. Qed.
+
+Lemma block_field_agree md bs t msg s e : is_instr md = false ->
+  agree (block_field MInstr bs t msg s e) (block_field md bs t msg s e).
+Proof. intros Hmd. unfold block_field. agree_field Hmd. Qed.
+
+Lemma presence_field_agree md bs t msg s e : is_instr md = false ->
+  agree (presence_field MInstr bs t msg s e) (presence_field md bs t msg s e).
+Proof. intros Hmd. unfold presence_field. agree_field Hmd. Qed.
+
+Lemma wantlist_field_agree md bs fuel t msg s e : is_instr md = false ->
+  agree (wantlist_field MInstr bs fuel t msg s e) (wantlist_field md bs fuel t msg s e).
+Proof.
+  intros Hmd. unfold wantlist_field.
+  destruct (t =? 10).
+  - apply agree_xmap. unfold read_message. apply read_len_varint_agree; [assumption|].
+    intros s' e'. unfold entry_from_reader. apply fr_loop_agree; [assumption|].
+    intros. apply entry_field_agree. assumption.
+  - agree_field Hmd.
+Qed.
+
+Lemma message_field_agree md bs fuel t msg s e : is_instr md = false ->
+  agree (message_field MInstr bs fuel t msg s e) (message_field md bs fuel t msg s e).
+Proof.
+  intros Hmd. unfold message_field.
+  destruct (t =? 10).
+  { apply agree_xmap. unfold read_message. apply read_len_varint_agree; [assumption|].
+    intros s' e'. unfold wantlist_from_reader. apply fr_loop_agree; [assumption|].
+    intros. apply wantlist_field_agree. assumption. }
+  destruct (t =? 26).
+  { apply agree_xmap. unfold read_message. apply read_len_varint_agree; [assumption|].
+    intros s' e'. unfold block_from_reader. apply fr_loop_agree; [assumption|].
+    intros. apply block_field_agree. assumption. }
+  destruct (t =? 34).
+  { apply agree_xmap. unfold read_message. apply read_len_varint_agree; [assumption|].
+    intros s' e'. unfold presence_from_reader. apply fr_loop_agree; [assumption|].
+    intros. apply presence_field_agree. assumption. }
+  agree_field Hmd.
+Qed.
+
+Lemma x_read_message_agree md rest n : is_instr md = false ->
+  agree (x_read_message MInstr rest n) (x_read_message md rest n).
+Proof.
+  intros Hmd. unfold x_read_message. apply read_len_agree; [assumption|].
+  intros s' e'. unfold message_from_reader. apply fr_loop_agree; [assumption|].
+  intros. apply message_field_agree. assumption.
+Qed.
+
+(* 3b. The instrumented run itself: with `start <= end < 2^64` it never panics and never runs out of
+   fuel; it keeps `start <= end`, and every loop iteration advances `start`. *)
+Definition goodr {A} (s e : N) (r : xres A) : Prop :=
+  match r with
+  | XOk _ s' => s <= s' /\ s' <= e
+  | XErr | XOverrun => True
+  | XPanic | XFuel => False
+  end.
+
+Definition nobad {A} (r : xres A) : Prop :=
+  match r with XPanic | XFuel => False | _ => True end.
+
+Lemma goodr_nobad {A} s e (r : xres A) : goodr s e r -> nobad r.
+Proof. destruct r; cbn; auto. Qed.
+
+Lemma goodr_xmap {A B} (f : A -> B) s e (r : xres A) : goodr s e r -> goodr s e (xmap f r).
+Proof. destruct r; cbn; auto. Qed.
+
+Lemma goodr_weaken {A} s0 s e (r : xres A) : s0 <= s -> goodr s e r -> goodr s0 e r.
+Proof. intros H. destruct r; cbn; auto. lia. Qed.
+
+Lemma nth_N_lt bs : forall s b, nth_N bs s = Some b -> s < len bs.
+Proof.
+  induction bs as [|x bs IH]; intros s b H; cbn [nth_N] in H; [discriminate|].
+  rewrite len_cons. destruct (s =? 0) eqn:E; [lia|]. apply IH in H. lia.
+Qed.
+
+(* the shape of a varint read: an error, or a value and a strictly larger cursor inside the array *)
+Definition vshape (bs : bytes) (s : N) (r : xres N) : Prop :=
+  match r with
+  | XOk _ s' => s < s' /\ s' <= len bs
+  | XErr => True
+  | _ => False
+  end.
+
+Lemma rv32_shape n : forall k r bs s, vshape bs s (rv32_go n k r bs s).
+Proof.
+  induction n as [|n IH]; intros k r bs s; cbn [rv32_go]; [exact I|].
+  unfold read_u8. destruct (nth_N bs s) as [b|] eqn:E; cbn [xbind]; [|exact I].
+  apply nth_N_lt in E.
+  destruct (b <? 128); [cbn; lia|].
+  match goal with |- vshape _ _ (rv32_go n ?k' ?r' bs (s + 1)) => specialize (IH k' r' bs (s + 1)) end.
+  destruct (rv32_go n _ _ bs (s + 1)); cbn [vshape] in *; auto. lia.
+Qed.
+
+Lemma rv64_shape n : forall k r bs s, vshape bs s (rv64_go n k r bs s).
+Proof.
+  induction n as [|n IH]; intros k r bs s; cbn [rv64_go]; [exact I|].
+  unfold read_u8. destruct (nth_N bs s) as [b|] eqn:E; cbn [xbind]; [|exact I].
+  apply nth_N_lt in E.
+  destruct (b <? 128); [cbn; lia|].
+  match goal with |- vshape _ _ (rv64_go n ?k' ?r' bs (s + 1)) => specialize (IH k' r' bs (s + 1)) end.
+  destruct (rv64_go n _ _ bs (s + 1)); cbn [vshape] in *; auto. lia.
+Qed.
+
+(* after the instrumentation check: strictly advanced and still inside the window *)
+Definition cshape {A} (s e : N) (r : xres A) : Prop :=
+  match r with
+  | XOk _ s' => s < s' /\ s' <= e
+  | XErr | XOverrun => True
+  | _ => False
+  end.
+
+Lemma ck_shape bs s e (r : xres N) : vshape bs s r -> cshape s e (ck MInstr e r).
+Proof.
+  destruct r as [v s'| | | |]; cbn [vshape ck cshape is_instr andb]; auto.
+  intros [H1 H2]. destruct (e <? s') eqn:E; cbn [cshape]; [exact I|lia].
+Qed.
+
+Lemma ck_rv32_shape bs s e : cshape s e (ck MInstr e (read_varint32 bs s)).
+Proof. apply ck_shape with (bs := bs). apply rv32_shape. Qed.
+
+Lemma ck_rv64_shape bs s e : cshape s e (ck MInstr e (read_varint64 bs s)).
+Proof. apply ck_shape with (bs := bs). apply rv64_shape. Qed.
+
+Lemma cshape_goodr {A} s e (r : xres A) : cshape s e r -> goodr s e r.
+Proof. destruct r; cbn; auto. lia. Qed.
+
+Lemma ck_xmap_i {A B} e (f : A -> B) r : ck MInstr e (xmap f r) = xmap f (ck MInstr e r).
+Proof.
+  destruct r as [a s| | | |]; try reflexivity.
+  cbn [xmap xbind ck]. destruct (is_instr MInstr && (e <? s)); reflexivity.
+Qed.
+
+Lemma read_len_good {A} (read : N -> N -> xres A) s e l :
+  s <= e -> e < two64 ->
+  (forall e', s <= e' -> e' <= e -> nobad (read s e')) ->
+  goodr s e (read_len MInstr read s e l).
+Proof.
+  intros Hse He Hr. unfold read_len. cbn [is_instr andb].
+  destruct (e <? s + l) eqn:E; [exact I|].
+  unfold usize_add. destruct (s + l <? two64) eqn:E2; [|lia].
+  specialize (Hr (s + l)). destruct (read s (s + l)); cbn [goodr nobad] in *; auto; try (apply Hr; lia).
+  lia.
+Qed.
+
+Lemma read_len_varint_good {A} bs (read : N -> N -> xres A) s e :
+  s <= e -> e < two64 ->
+  (forall s1 e1, s <= s1 -> s1 <= e1 -> e1 <= e -> nobad (read s1 e1)) ->
+  goodr s e (read_len_varint MInstr bs read s e).
+Proof.
+  intros Hse He Hr. unfold read_len_varint.
+  pose proof (ck_rv32_shape bs s e) as Hc.
+  destruct (ck MInstr e (read_varint32 bs s)) as [l s1| | | |]; cbn [cshape] in Hc; cbn [xbind goodr]; auto.
+  apply (goodr_weaken s s1); [lia|].
+  apply read_len_good; [lia|assumption|]. intros e' H1 H2. apply Hr; lia.
+Qed.
+
+Lemma read_bytes_good bs s e : s <= e -> e < two64 -> goodr s e (read_bytes MInstr bs s e).
+Proof.
+  intros Hse He. unfold read_bytes. apply read_len_varint_good; try assumption.
+  intros s1 e1 _ _ _. destruct (get_range bs s1 e1); exact I.
+Qed.
+
+Lemma read_unknown_good bs t s e : s <= e -> e < two64 -> goodr s e (read_unknown MInstr bs t s e).
+Proof.
+  intros Hse He. unfold read_unknown.
+  destruct (t mod 8 =? 0).
+  { apply goodr_xmap, cshape_goodr, ck_rv64_shape. }
+  destruct ((t mod 8 =? 1) || (t mod 8 =? 5) || (t mod 8 =? 2)); [|exact I].
+  assert (Hfix : forall k, goodr s e
+            (xbind (XOk k s) (fun offset s1 =>
+               match usize_sub MInstr e s1 with
+               | None => XPanic
+               | Some d => if d <? offset then XErr
+                           else match usize_add MInstr s1 offset with
+                                | None => XPanic | Some s2 => XOk tt s2 end
+               end))).
+  { intros k. cbn [xbind]. unfold usize_sub. destruct (s <=? e) eqn:E1; [|lia].
+    destruct (e - s <? k) eqn:E2; [exact I|].
+    unfold usize_add. destruct (s + k <? two64) eqn:E3; [|lia]. cbn [goodr]. lia. }
+  destruct (t mod 8 =? 1); [apply Hfix|]. destruct (t mod 8 =? 5); [apply Hfix|].
+  pose proof (ck_rv64_shape bs s e) as Hc.
+  destruct (ck MInstr e (read_varint64 bs s)) as [offset s1| | | |]; cbn [cshape] in Hc; cbn [xbind goodr]; auto.
+  unfold usize_sub. destruct (s1 <=? e) eqn:E1; [|lia].
+  destruct (e - s1 <? offset) eqn:E2; [exact I|].
+  unfold usize_add. destruct (s1 + offset <? two64) eqn:E3; [|lia]. cbn [goodr]. lia.
+Qed.
+
+Lemma skip_unknown_good {M} bs t (msg : M) s e :
+  s <= e -> e < two64 -> goodr s e (skip_unknown MInstr bs t msg s e).
+Proof. intros. unfold skip_unknown. apply goodr_xmap, read_unknown_good; assumption. Qed.
+
+Lemma fr_loop_good {M} bs (field : N -> M -> N -> N -> xres M) e :
+  (forall t msg s1, s1 <= e -> goodr s1 e (field t msg s1 e)) ->
+  forall fuel msg s, s <= e -> (N.to_nat (e - s) < fuel)%nat ->
+  goodr s e (fr_loop MInstr bs field fuel msg s e).
+Proof.
+  intros Hf. induction fuel as [|fuel IH]; intros msg s Hse Hfuel; [lia|].
+  cbn [fr_loop]. destruct (s =? e) eqn:E; [cbn [goodr]; lia|].
+  pose proof (ck_rv32_shape bs s e) as Hc.
+  destruct (ck MInstr e (read_varint32 bs s)) as [t s1| | | |]; cbn [cshape] in Hc; cbn [goodr]; auto.
+  specialize (Hf t msg s1). 
+  destruct (field t msg s1 e) as [msg' s2| | | |]; cbn [goodr] in Hf |- *; try (apply Hf; lia); auto.
+  apply (goodr_weaken s s2); [lia|]. apply IH; lia.
+Qed.
+
+Ltac good_field :=
+  repeat match goal with |- goodr _ _ (if ?c then _ else _) => destruct c end;
+  match goal with
+  | |- goodr _ _ (skip_unknown _ _ _ _ _ _) => apply skip_unknown_good; assumption
+  | |- goodr _ _ (xmap _ (read_bytes _ _ _ _)) => apply goodr_xmap, read_bytes_good; assumption
+  | |- goodr _ _ (xmap _ (ck _ _ (read_int32 _ _))) =>
+      apply goodr_xmap, cshape_goodr; unfold read_int32; apply ck_rv32_shape
+  | |- goodr ?s ?e (xmap _ (ck _ _ (read_bool ?bs _))) =>
+      apply goodr_xmap, cshape_goodr; unfold read_bool; rewrite ck_xmap_i;
+      let H := fresh in pose proof (ck_rv32_shape bs s e) as H;
+      destruct (ck MInstr e (read_varint32 bs s)); cbn [xmap xbind cshape] in *; auto
+  end.
+
+Lemma entry_field_good bs t msg s e : s <= e -> e < two64 -> goodr s e (entry_field MInstr bs t msg s e).
+Proof. intros Hse He. unfold entry_field. good_field. Qed.
+
+Lemma block_field_good bs t msg s e : s <= e -> e < two64 -> goodr s e (block_field MInstr bs t msg s e).
+Proof. intros Hse He. unfold block_field. good_field. Qed.
+
+Lemma presence_field_good bs t msg s e : s <= e -> e < two64 -> goodr s e (presence_field MInstr bs t msg s e).
+Proof. intros Hse He. unfold presence_field. good_field. Qed.
+
+Lemma nested_good {A B} bs (F : A -> B) (from_reader : N -> N -> xres A) s e :
+  s <= e -> e < two64 ->
+  (forall s1 e1, s1 <= e1 -> e1 <= e -> nobad (from_reader s1 e1)) ->
+  goodr s e (xmap F (read_message MInstr bs from_reader s e)).
+Proof.
+  intros Hse He Hr. apply goodr_xmap. unfold read_message.
+  apply read_len_varint_good; try assumption. intros s1 e1 _ H1 H2. apply Hr; assumption.
+Qed.
+
+Lemma entry_from_reader_good bs fuel s e :
+  s <= e -> e < two64 -> (N.to_nat e < fuel)%nat -> goodr s e (entry_from_reader MInstr bs fuel s e).
+Proof.
+  intros Hse He Hf. unfold entry_from_reader. apply fr_loop_good; [|assumption|lia].
+  intros t msg s1 Hs1. apply entry_field_good; assumption.
+Qed.
+
+Lemma block_from_reader_good bs fuel s e :
+  s <= e -> e < two64 -> (N.to_nat e < fuel)%nat -> goodr s e (block_from_reader MInstr bs fuel s e).
+Proof.
+  intros Hse He Hf. unfold block_from_reader. apply fr_loop_good; [|assumption|lia].
+  intros t msg s1 Hs1. apply block_field_good; assumption.
+Qed.
+
+Lemma presence_from_reader_good bs fuel s e :
+  s <= e -> e < two64 -> (N.to_nat e < fuel)%nat -> goodr s e (presence_from_reader MInstr bs fuel s e).
+Proof.
+  intros Hse He Hf. unfold presence_from_reader. apply fr_loop_good; [|assumption|lia].
+  intros t msg s1 Hs1. apply presence_field_good; assumption.
+Qed.
+
+Lemma wantlist_field_good bs fuel t msg s e :
+  s <= e -> e < two64 -> (N.to_nat e < fuel)%nat -> goodr s e (wantlist_field MInstr bs fuel t msg s e).
+Proof.
+  intros Hse He Hf. unfold wantlist_field.
+  destruct (t =? 10).
+  - apply nested_good; try assumption. intros s1 e1 H1 H2.
+    apply (goodr_nobad s1 e1). apply entry_from_reader_good; lia.
+  - good_field.
+Qed.
+
+Lemma wantlist_from_reader_good bs fuel s e :
+  s <= e -> e < two64 -> (N.to_nat e < fuel)%nat -> goodr s e (wantlist_from_reader MInstr bs fuel s e).
+Proof.
+  intros Hse He Hf. unfold wantlist_from_reader. apply fr_loop_good; [|assumption|lia].
+  intros t msg s1 Hs1. apply wantlist_field_good; assumption.
+Qed.
+
+Lemma message_field_good bs fuel t msg s e :
+  s <= e -> e < two64 -> (N.to_nat e < fuel)%nat -> goodr s e (message_field MInstr bs fuel t msg s e).
+Proof.
+  intros Hse He Hf. unfold message_field.
+  destruct (t =? 10).
+  { apply nested_good; try assumption. intros s1 e1 H1 H2.
+    apply (goodr_nobad s1 e1). apply wantlist_from_reader_good; lia. }
+  destruct (t =? 26).
+  { apply nested_good; try assumption. intros s1 e1 H1 H2.
+    apply (goodr_nobad s1 e1). apply block_from_reader_good; lia. }
+  destruct (t =? 34).
+  { apply nested_good; try assumption. intros s1 e1 H1 H2.
+    apply (goodr_nobad s1 e1). apply presence_from_reader_good; lia. }
+  good_field.
+Qed.
+
+Lemma x_read_message_good rest n :
+  n < two64 -> goodr 0 (len rest) (x_read_message MInstr rest n).
+Proof.
+  intros Hn. unfold x_read_message, read_len. cbn [is_instr andb].
+  destruct (len rest <? 0 + n) eqn:E; [exact I|].
+  unfold usize_add. destruct (0 + n <? two64) eqn:E2; [|lia].
+  assert (Hg : goodr 0 (0 + n) (message_from_reader MInstr rest (qp_fuel rest) 0 (0 + n))).
+  { unfold message_from_reader. apply fr_loop_good.
+    - intros t msg s1 Hs1. apply message_field_good; try lia. unfold qp_fuel, len in *. lia.
+    - lia.
+    - unfold qp_fuel, len in *. lia. }
+  destruct (message_from_reader MInstr rest (qp_fuel rest) 0 (0 + n)); cbn [goodr] in *; auto. lia.
+Qed.
+
+(* C08 (decode): outside the Overrun class, decoding terminates with a message or an error, in
+   both build profiles - no panic, no unbounded loop.  `n < 2^64`: the length argument is a usize. *)
+Theorem C08_decode_total : forall chk rest n,
+  n < two64 -> n <= len rest -> ~ Overrun rest n ->
+  (exists m s, qp_read_message chk rest n = ROk m s) \/ qp_read_message chk rest n = RErr.
+Proof.
+  intros chk rest n Hn _ Hno. unfold Overrun, overrun_b in Hno. unfold qp_read_message.
+  assert (Hmd : is_instr (mode_of_chk chk) = false) by (destruct chk; reflexivity).
+  pose proof (x_read_message_good rest n Hn) as Hg.
+  pose proof (x_read_message_agree (mode_of_chk chk) rest n Hmd) as Ha.
+  destruct (x_read_message MInstr rest n) as [m s| | | |]; cbn [goodr agree] in *.
+  - left. exists m, s. rewrite Ha. reflexivity.
+  - right. rewrite Ha. reflexivity.
+  - contradiction.
+  - contradiction.
+  - exfalso. apply Hno. reflexivity.
+Qed.
+
+(* the same, with the outcome named: it is the outcome of the instrumented run *)
+Theorem C08_decode_total_eq : forall chk rest n,
+  n < two64 -> overrun_b rest n = false ->
+  qp_read_message chk rest n = to_rres (x_read_message MInstr rest n) /\
+  (forall m s, qp_read_message chk rest n = ROk m s -> s = n /\ n <= len rest).
+Proof.
+  intros chk rest n Hn Hno. unfold overrun_b in Hno. unfold qp_read_message.
+  assert (Hmd : is_instr (mode_of_chk chk) = false) by (destruct chk; reflexivity).
+  pose proof (x_read_message_good rest n Hn) as Hg.
+  pose proof (x_read_message_agree (mode_of_chk chk) rest n Hmd) as Ha.
+  destruct (x_read_message MInstr rest n) as [m s| | | |] eqn:Ei; cbn [goodr agree] in *;
+    try contradiction; try discriminate.
+  - rewrite Ha. split; [reflexivity|]. cbn [to_rres]. intros m' s' [= <- <-].
+    unfold x_read_message, read_len in Ei. cbn [is_instr andb] in Ei.
+    destruct (len rest <? 0 + n) eqn:E; [discriminate|].
+    unfold usize_add in Ei. destruct (0 + n <? two64) eqn:E2; [|lia].
+    destruct (message_from_reader MInstr rest (qp_fuel rest) 0 (0 + n)); try discriminate.
+    injection Ei as _ <-. lia.
+  - rewrite Ha. split; [reflexivity|]. cbn [to_rres]. discriminate.
+Qed.
+
+(* the F2 witness: the body of the 18-byte frame 11 0a 02 0a 02 10 01 7a f1 ff*8 01.
+   With overflow checks: panic (`self.end - self.start` with start = 17 > end = 4, reader.rs:543).
+   Without: `start` wraps back to 2 and Wantlist::from_reader loops for ever, pushing an entry per turn. *)
+Theorem C08_decode_refuted :
+  len f2_witness = 17 /\
+  qp_read_message true f2_witness 17 = RPanic /\
+  qp_read_message false f2_witness 17 = RFuel /\
+  overrun_b f2_witness 17 = true.
+Proof. vm_compute. repeat split; reflexivity. Qed.
+
+(* the loop really is a loop: more fuel does not help (fuel 5000 instead of 18) *)
+Example C08_decode_refuted_more_fuel :
+  read_len MRel (message_from_reader MRel f2_witness 5000) 0 (len f2_witness) 17 = XFuel.
+Proof. vm_compute. reflexivity. Qed.
+
+(* non-vacuity of C08_decode_total: inputs that are not in the class, with either outcome *)
+Example C08_decode_total_ex :
+  let ok := [26; 11; 10; 4; 1; 85; 18; 32; 18; 3; 97; 98; 99] in
+  let bad := [26; 11; 10; 4; 1; 85] in
+  overrun_b ok 13 = false /\
+  qp_read_message true ok 13 = ROk (MkMessage None [MkBlock [1; 85; 18; 32] [97; 98; 99]] [] 0) 13 /\
+  overrun_b bad 6 = true /\
+  overrun_b [10; 1; 16] 3 = false /\ qp_read_message false [10; 1; 16] 3 = RErr.
+Proof. vm_compute. repeat split; reflexivity. Qed.
+
+(* ------------------------------------------------------------------------------------------ *)
 (* the executable well-formedness test is the predicate                                       *)
 
 Lemma forallb_Forall {A} (p : A -> bool) (P : A -> Prop) (l : list A) :
